@@ -55,6 +55,21 @@ func Inject(r *rand.Rand, c *cfg.Config, kind string, n int) {
 	switch kind {
 	case "missing-param":
 		name := fmt.Sprintf("nopeP%d", n)
+		if r.Intn(6) == 0 {
+			// a missing parameter named like a registered function: `%env%` is still a reference to a parameter
+			cands := []string{"env", "envInt", "todo"}
+			for _, kv := range c.Meta.Functions {
+				cands = append(cands, kv.K)
+			}
+			cand := cands[r.Intn(len(cands))]
+			declared := false
+			for _, kv := range c.Params {
+				declared = declared || kv.K == cand
+			}
+			if !declared {
+				name = cand
+			}
+		}
 		if r.Intn(5) == 0 {
 			// names may be long (48, 60, 61, 100+ characters): they are printed, padded, aligned
 			name = fmt.Sprintf("nopeP%d.%s", n, strings.Repeat("billing.payments-gateway.http_client.", 1+r.Intn(3))+"timeout")
